@@ -1,0 +1,30 @@
+//go:build verif
+
+package syncutil
+
+// Contracts for gocv (see /verif/DESIGN.md). Comment-only file.
+
+//@ package syncutil
+//@ import context "context"
+//@ import semaphore "golang.org/x/sync/semaphore"
+//@
+//@ func LimitRegion
+//@   ensures [C04:nil-iff-unlimited] (result == nil) == (limiter == nil)
+//@   ensures [C04:starts-ended] result != nil ==> result.ended && result.limiter == limiter && result.ctx == ctx && !old(alive(result)) && alive(result)
+//@   modifies alloc, new LimitedRegion.*
+//@
+//@ func (*LimitedRegion).Start
+//@   requires [wf] lr == nil || lr.limiter != nil
+//@   ensures [C04:holds-after-start] lr != nil && result == nil ==> !lr.ended
+//@   ensures [C04:acquires-once-iff-ended] lr != nil && old(lr.ended) && result == nil ==> acquired(lr.limiter) == old(acquired(lr.limiter)) + 1
+//@   ensures [C04:no-acquire-when-held] lr != nil && !old(lr.ended) ==> result == nil && acquired(lr.limiter) == old(acquired(lr.limiter))
+//@   ensures [C04:failure-changes-nothing] lr != nil && result != nil ==> lr.ended == old(lr.ended) && acquired(lr.limiter) == old(acquired(lr.limiter))
+//@   ensures [C04:nil-region] lr == nil ==> result == nil
+//@   modifies LimitedRegion.ended@lr, ghost.acquired, alloc
+//@
+//@ func (*LimitedRegion).End
+//@   requires [wf] lr == nil || lr.limiter != nil
+//@   ensures [C04:ended] lr != nil ==> lr.ended
+//@   ensures [C04:releases-once-iff-held] lr != nil && !old(lr.ended) ==> acquired(lr.limiter) == old(acquired(lr.limiter)) - 1
+//@   ensures [C04:no-double-release] lr != nil && old(lr.ended) ==> acquired(lr.limiter) == old(acquired(lr.limiter))
+//@   modifies LimitedRegion.ended@lr, ghost.acquired
